@@ -155,6 +155,41 @@ func (w *World) resolveRenames() {
 			claimed[cands[0]]++
 		}
 	}
+	// second pass: a package-level function turned into a method of the type of one of its parameters (or
+	// back): same package, same results, the same parameter types counting the receiver, in any order
+	pkgOf := func(n string) string {
+		n = strings.TrimPrefix(n, "(")
+		n = strings.TrimPrefix(n, "*")
+		if i := strings.LastIndex(n, "/"); i >= 0 {
+			j := strings.Index(n[i:], ".")
+			if j >= 0 {
+				return n[:i+j]
+			}
+			return n
+		}
+		if j := strings.Index(n, "."); j >= 0 {
+			return n[:j]
+		}
+		return n
+	}
+	for n, sig := range Pinned {
+		if _, ok := w.funcs[n]; ok {
+			continue
+		}
+		if _, done := match[n]; done {
+			continue
+		}
+		var cands []*ssa.Function
+		for _, f := range unknown {
+			if claimed[f] == 0 && pkgOf(FuncName(f)) == pkgOf(n) && bagSigKey(SigKeyWithRecv(f)) == bagSigKey(sig) {
+				cands = append(cands, f)
+			}
+		}
+		if len(cands) == 1 {
+			match[n] = cands[0]
+			claimed[cands[0]]++
+		}
+	}
 	for n, f := range match {
 		if claimed[f] != 1 {
 			continue
@@ -164,6 +199,29 @@ func (w *World) resolveRenames() {
 		funcAlias[f] = n
 		w.funcs[n] = f
 	}
+}
+
+// SigKeyWithRecv is SigKey with the receiver counted as the first parameter.
+func SigKeyWithRecv(f *ssa.Function) string {
+	k := SigKey(f)
+	if recv := f.Signature.Recv(); recv != nil {
+		if strings.HasPrefix(k, "()") {
+			return "(" + recv.Type().String() + k[1:]
+		}
+		return "(" + recv.Type().String() + "," + k[1:]
+	}
+	return k
+}
+
+// bagSigKey: a signature key with its parameter list sorted.
+func bagSigKey(k string) string {
+	i := strings.Index(k, ")(")
+	if i < 0 || !strings.HasPrefix(k, "(") {
+		return k
+	}
+	ps := strings.Split(k[1:i], ",")
+	sort.Strings(ps)
+	return "(" + strings.Join(ps, ",") + k[i:]
 }
 
 // FuncName gives the short qualified name of an SSA function:
